@@ -245,24 +245,13 @@ theorem bmca_inv (i i' : Inst) (order : List Nat) (obs : Obs) (hnd : order.Nodup
 
 theorem announceUpdate_dflt (p : Port) (s s1 : InstState) (m : Msg) (a : Ann) (l : Bool)
     (h : p.announceUpdate s m a = .ok (s1, l)) : s1.dflt = s.dflt := by
-  unfold Port.announceUpdate at h
-  split at h
-  · cases hap : s.applyParent a with
-    | error e => rw [hap] at h; cases h
-    | ok s2 =>
-      rw [hap] at h
-      have hd := (applyParent_dflt s s2 a hap).1
-      simp only at h
-      split at h
-      · split at h
-        · split at h
-          · simp only [Except.ok.injEq, Prod.mk.injEq] at h; rw [← h.1]; exact hd
-          · split at h
-            · cases h
-            · simp only [Except.ok.injEq, Prod.mk.injEq] at h; rw [← h.1]; exact hd
-        · simp only [Except.ok.injEq, Prod.mk.injEq] at h; rw [← h.1]; exact hd
-      · simp only [Except.ok.injEq, Prod.mk.injEq] at h; rw [← h.1]; exact hd
-  · simp only [Except.ok.injEq, Prod.mk.injEq] at h; rw [← h.1]
+  rcases announceUpdate_cases p s s1 m a l h with ⟨_, e, _⟩ | ⟨_, _, _, e, _⟩ | ⟨_, _, _, _, s2, hap, hst⟩
+  · rw [e]
+  · rw [e]
+  · have hd := (applyParent_dflt s s2 a hap).1
+    rcases storePath_spec s2 s1 _ hst with ⟨_, e⟩ | ⟨t, _, e, _⟩
+    · rw [e]; exact hd
+    · rw [e]; exact hd
 
 theorem handleAnnounce_dflt (p p' : Port) (s s' : InstState) (m : Msg) (ab : AnnounceBody) (o : List Out)
     (h : p.handleAnnounce s m ab = .ok (p', s', o)) : s'.dflt = s.dflt := by
